@@ -126,6 +126,10 @@ class Evaluator:
         self.repo = repo
         self.assume = assume  # callable(cond term) -> True / False / None
         self.batch_params = tuple(batch_params)
+        self.loop_mode = "havoc"
+        self.loops: list = []
+        self.divisions: list = []  # (denominator term, node, func)
+        self.infeasible = False
         self.max_depth = max_depth
         self.inline_pred = inline
         self.no_inline = set(no_inline)
@@ -288,6 +292,9 @@ class Frame:
         d = decide(cond)
         if d is None and self.ev.assume is not None:
             d = self.ev.assume(cond)
+            if d is None and cond[0] == "not":
+                inner = self.ev.assume(cond[1])
+                d = None if inner is None else (not inner)
         return d
 
     def exec_if(self, s: ast.If, st: State):
@@ -330,32 +337,55 @@ class Frame:
             self.ev.heap = _merge_maps(cond, heap_a, heap_b, heap=True)
 
     def exec_loop(self, s, st: State):
+        """Loops are not iterated.  Variables assigned in the body become *head
+        atoms* ``name@L<line>`` (their value at the loop head, which is also
+        their value when the head test fails); the body is folded once from the
+        head atoms, giving the loop's transfer function in normal form, which is
+        recorded in ``ev.loops``.  ``loop_mode == 'skip'`` explores the
+        zero-iteration path instead."""
         ev = self.ev
+        pre_env = dict(st.env)
         if isinstance(s, ast.For):
             self.eval(s.iter, st)
         assigned, attr_assigned = _assigned_names(s)
-        for n in assigned:
-            st.env[n] = ev.opaque(f"loop:{n}")
-        for (base, attr) in attr_assigned:
+        if ev.loop_mode == "skip" and isinstance(s, ast.While):
+            t0 = self.eval(s.test, st)
+            d = self.decide(t0)
+            ev.loops.append(dict(node=s, func=self.f, pre=pre_env, head={}, test=t0, body={}, mode="skip", feasible=d is not True))
+            if d is True:
+                ev.infeasible = True
+            self.exec_block(s.orelse, st)
+            return
+        tag = f"L{s.lineno}"
+        head = {}
+        for n in sorted(assigned):
+            head[n] = T.atom(f"{n}@{tag}")
+            st.env[n] = head[n]
+        for (base, attr) in sorted(attr_assigned):
             b = st.env.get(base)
             if b is not None:
-                ev.heap[(b, attr)] = ev.opaque(f"loop:{base}.{attr}")
-        # the body is folded once on a scratch state so that calls inside it
-        # are recorded as events (values are not propagated out of the loop)
+                ev.heap[(b, attr)] = T.atom(f"{base}.{attr}@{tag}")
         scratch = st.copy()
         scratch.ret = None
         heap0 = dict(ev.heap)
+        test = None
         if isinstance(s, ast.For):
-            self.assign(s.target, ev.opaque("loopvar"), scratch, s)
+            self.assign(s.target, ("f", "elem", (self.eval(s.iter, scratch),), ()), scratch, s)
         else:
-            self.eval(s.test, scratch)
+            test = self.eval(s.test, scratch)
         self.exec_block(s.body, scratch)
+        has_break = any(isinstance(x, ast.Break) for x in walk_no_nested(s))
+        ev.loops.append(dict(node=s, func=self.f, pre=pre_env, head=head, test=test, body=dict(scratch.env),
+                             mode="havoc", has_break=has_break, body_heap=dict(ev.heap)))
         ev.heap = heap0
-        for n in assigned:
-            st.env[n] = ev.opaque(f"loop:{n}")
+        if has_break:
+            # values at a break are mid-body values: unknown after the loop
+            for n in assigned:
+                st.env[n] = ev.opaque(f"loop:{n}")
         if scratch.ret is not None and not _only(scratch.ret, T.CONT):
-            # a return inside a loop: the function value becomes opaque on that path
             st.ret = ev.opaque("return-in-loop") if st.ret is None else st.ret
+        if not has_break:
+            self.exec_block(s.orelse, st)
 
     def exec_try(self, s: ast.Try, st: State):
         ev = self.ev
@@ -613,6 +643,7 @@ class Frame:
                 return T.mul(a, b)
             return ("f", "mul", (a, b), ())
         if isinstance(op, ast.Div):
+            self.ev.divisions.append((b, node, self.f))
             return T.div(a, b) if num else ("f", "div", (a, b), ())
         if isinstance(op, ast.Pow):
             cv = T.const_value(b)
@@ -970,7 +1001,9 @@ class Frame:
         ret = st.ret
         if ret is None:
             return T.NONE
-        return subst_cont(ret, T.NONE)
+        # the value an inlined call contributes is its value on the
+        # non-raising paths
+        return T.strip_raise(subst_cont(ret, T.NONE))
 
     # ------------------------------------------------------------- events
     def _record(self, callee, args, kwargs, e, result, recv):
